@@ -476,6 +476,20 @@ def capture(pr, priority):
     return cap
 
 
+def failed_lp(pr):
+    """constraint system of the problem whose solve just failed (transcribed_problem is stored
+    before the success check), for an independent feasibility verdict"""
+    tp = pr.transcribed_problem
+    nlp = tp["nlp"]
+    X = nlp["x"]
+    g = nlp["g"]
+    A, b0 = affine_of(g, X) if g.size1() else (np.zeros((0, X.size1())), np.zeros(0))
+    return {"A": A, "b0": b0,
+            "lbg": np.array(ca.veccat(*tp["lbg"]), dtype=float).ravel() if len(tp["lbg"]) else np.zeros(0),
+            "ubg": np.array(ca.veccat(*tp["ubg"]), dtype=float).ravel() if len(tp["ubg"]) else np.zeros(0),
+            "lbx": np.array(tp["lbx"], dtype=float).ravel(), "ubx": np.array(tp["ubx"], dtype=float).ravel()}
+
+
 def is_min_like(s):
     """a goal with a target kind none of whose targets is set is a minimisation goal for the code"""
     if s["kind"] == "min":
@@ -511,4 +525,9 @@ def run_instance(inst, mode=None, capture_full=True, extra_bases=(), twice=False
                 return (bool(ok), bool(ok2)), pr
     except Exception as e:  # the implementation rejects the input
         return ("raise", type(e).__name__, str(e)[:300]), pr
+    if not ok and capture_full:
+        try:
+            pr.failed = failed_lp(pr)
+        except Exception:
+            pr.failed = None
     return bool(ok), pr
